@@ -135,3 +135,33 @@ fn facades_pass_through_outside_a_run() {
   let t = rxsim_rt::thread::current();
   assert_eq!(t.id(), rxsim_rt::thread::current().id());
 }
+
+#[test]
+fn once_runs_once_and_recursion_is_a_self_deadlock() {
+  use rxsim_rt::sync::Once;
+  for seed in 0..50 {
+    let n = Arc::new(std::sync::Mutex::new(0));
+    let n2 = n.clone();
+    let r = run(RunCfg::new(seed), move || {
+      let once = Arc::new(Once::new());
+      let hs: Vec<_> = (0..3)
+        .map(|i| {
+          let (once, n) = (once.clone(), n2.clone());
+          spawn_harness(&format!("t{i}"), move || once.call_once(|| *n.lock().unwrap() += 1))
+        })
+        .collect();
+      for h in hs {
+        h.join().unwrap();
+      }
+      assert!(once.is_completed());
+    });
+    assert!(r.outcome.is_ok(), "{:?}", r.outcome);
+    assert_eq!(*n.lock().unwrap(), 1);
+  }
+  let r = run(RunCfg::new(1), move || {
+    let once = Arc::new(Once::new());
+    let o2 = once.clone();
+    once.call_once(move || o2.call_once(|| {}));
+  });
+  assert!(!r.outcome.is_ok(), "a recursive call_once must end the run: {:?}", r.outcome);
+}
